@@ -199,6 +199,12 @@ def _row_flow(w, expr, depth=0):
                 out.append(('filter', x))
         if c == _DEPS:
             out.append(('source', ''))
+        elif len(c) == 1 and __import__('re').match(r'^for #\d+$', c[0]) and depth < 6:
+            # filled from another collection built earlier
+            src = [e2 for e2 in w.E if e2.kind == 'new' and short(e2.text) == c[0][4:]]
+            if src:
+                return out + _row_flow(w, ast.Name(id=src[0].text, ctx=ast.Load()), depth + 1)
+            out.append(('opaque', f'collected in {list(c)}'))
         else:
             out.append(('opaque', f'collected in {list(c)}'))
         return out
@@ -271,7 +277,7 @@ def r4_default_expand(ctx, res):
             for kind, detail in steps:
                 if kind == 'filter':
                     nfilters += 1
-                    if not re.match(r'^(\w+|\$2\[\d+\]) is not None$', detail):
+                    if not re.match(r'^(\w+|\$\d\[\d+\]) is not None$', detail):
                         bad = f'rows are filtered by `{detail}`'
                 elif kind == 'keyed' and detail != 'id+version' and not (pid in detail and pver in detail):
                     bad = (f'rows are collapsed into a mapping keyed by {detail} (two selected lexicons may require different versions of '
@@ -311,6 +317,10 @@ def r4_default_expand(ctx, res):
                     and {x for x in adds[0][2] if x.startswith('$')} == {f'{prow} is None'}
             else:
                 okw = ' is None' in g and 'get_lexicon_dependencies' in g
+            if not okw and m2:
+                adds = [r for r in w.rows if r[0] == 'call' and r[1].startswith(m2.group(1) + '.append(format_lexicon_specifier(')]
+                okw = len(adds) == 1 and len([x for x in adds[0][2] if x.startswith('$')]) == 1 \
+                    and bool(re.match(r'^\$\d\[\d+\] is None$', [x for x in adds[0][2] if x.startswith('$')][0]))
     if not okw:
         res.find(key, loc, 'the warning about missing dependencies is no longer issued exactly when a declared dependency is not installed')
     # dependency rows: (id, version, url, provider rowid)
